@@ -360,48 +360,7 @@ func (p *Prog) wholeIndexCompare() []Ob {
 func ruleR35(p *Prog) []Ob {
 	var obs []Ob
 	ea := p.ErrAtomsCached()
-	pureMemo := map[*ssa.Function]int{}
-	var pure func(f *ssa.Function) bool
-	allow := map[string]bool{"sort": true, "slices": true, "bytes": true, "errors": true, "fmt": true, "math": true, "strings": true, "hash/fnv": true, "encoding/binary": true, "cmp": true}
-	pure = func(f *ssa.Function) bool {
-		if v, ok := pureMemo[f]; ok {
-			return v != 2
-		}
-		pureMemo[f] = 1
-		res := true
-		for _, b := range f.Blocks {
-			for _, ins := range b.Instrs {
-				c, ok := ins.(ssa.CallInstruction)
-				if !ok {
-					continue
-				}
-				if _, isB := c.Common().Value.(*ssa.Builtin); isB {
-					continue
-				}
-				gs := p.callees(c)
-				if len(gs) == 0 {
-					if _, isMC := c.Common().Value.(*ssa.MakeClosure); !isMC && c.Common().StaticCallee() == nil {
-						res = false
-					}
-				}
-				for _, g := range gs {
-					if inModule(g) {
-						if g.Blocks != nil && !pure(g) {
-							res = false
-						}
-					} else if !allow[funcPkgPath(g)] && !strings.HasPrefix(funcPkgPath(g), "github.com/plar/go-adaptive-radix-tree") {
-						res = false
-					}
-				}
-			}
-		}
-		if res {
-			pureMemo[f] = 1
-		} else {
-			pureMemo[f] = 2
-		}
-		return res
-	}
+	pure := p.pureFn
 	outcomes := atomset{}
 	for _, fn := range p.Funcs {
 		if !srcFunc(fn) || fn.Parent() != nil || !pure(fn) {
@@ -1338,10 +1297,19 @@ func (p *Prog) eagerMigrationByOption() []Ob {
 			if _, isB := x.Common().Value.(*ssa.Builtin); isB {
 				return ""
 			}
+			if g := x.Common().StaticCallee(); g != nil && inModule(g) && g.Blocks != nil && p.pureFn(g) {
+				// a pure helper over the options is still a decision by the options
+				for _, a := range x.Common().Args {
+					if s := dependsOnCall(a, d+1); s != "" {
+						return s
+					}
+				}
+				return ""
+			}
 			return calleeName(x.Common())
 		case *ssa.Extract:
 			if c, ok := x.Tuple.(*ssa.Call); ok {
-				return calleeName(c.Common())
+				return dependsOnCall(c, d+1)
 			}
 		case *ssa.BinOp:
 			if s := dependsOnCall(x.X, d+1); s != "" {
@@ -1966,6 +1934,459 @@ func (p *Prog) consumeBound() []Ob {
 				obs = append(obs, ob)
 			}
 		}
+	}
+	return obs
+}
+
+// pureFn: f (a module function) reaches no call outside the module other than into a short list of
+// packages without I/O (sort, bytes, errors, fmt, ... and the in-memory radix tree).
+func (p *Prog) pureFn(f *ssa.Function) bool {
+	if p.pureMemo == nil {
+		p.pureMemo = map[*ssa.Function]int{}
+	}
+	if v, ok := p.pureMemo[f]; ok {
+		return v != 2
+	}
+	p.pureMemo[f] = 1
+	allow := map[string]bool{"sort": true, "slices": true, "bytes": true, "errors": true, "fmt": true, "math": true, "strings": true, "hash/fnv": true, "encoding/binary": true, "cmp": true}
+	res := true
+	for _, b := range f.Blocks {
+		for _, ins := range b.Instrs {
+			c, ok := ins.(ssa.CallInstruction)
+			if !ok {
+				continue
+			}
+			if _, isB := c.Common().Value.(*ssa.Builtin); isB {
+				continue
+			}
+			gs := p.callees(c)
+			if len(gs) == 0 {
+				if _, isMC := c.Common().Value.(*ssa.MakeClosure); !isMC && c.Common().StaticCallee() == nil {
+					res = false
+				}
+			}
+			for _, g := range gs {
+				if inModule(g) {
+					if g.Blocks != nil && !p.pureFn(g) {
+						res = false
+					}
+				} else if !allow[funcPkgPath(g)] && !strings.HasPrefix(funcPkgPath(g), "github.com/plar/go-adaptive-radix-tree") {
+					res = false
+				}
+			}
+		}
+	}
+	if res {
+		p.pureMemo[f] = 1
+	} else {
+		p.pureMemo[f] = 2
+	}
+	return res
+}
+
+// ---------------------------------------------------------------------------
+// R40 ERROR-DISCIPLINE (C06, C05, C01, C14): no error of a module or standard-library call is
+// dropped, except in the idioms this repository already uses and that were confirmed by reading:
+//   (a) Close() inside a deferred closure (clean-up on a path that already fails, or of a handle that
+//       was only read from) and `defer x.Close()`;
+//   (b) writes into a hash (hash.Hash.Write never fails);
+//   (c) frozen: index.GetVersion in Segment.Recover (an unreadable version means the index is removed
+//       and not rewritten, which the next open rebuilds).
+func ruleR40(p *Prog) []Ob {
+	var obs []Ob
+	props := []string{"C06", "C05", "C01", "C14"}
+	frozen := map[string]string{
+		"(segment.Segment).Recover|" + pkgIndex + ".GetVersion": "an unreadable version leaves VUnknown: the index is removed, not rewritten, and rebuilt by the next open",
+	}
+	inDeferredClosure := func(fn *ssa.Function) bool {
+		if fn.Parent() == nil {
+			return false
+		}
+		for _, b := range fn.Parent().Blocks {
+			for _, ins := range b.Instrs {
+				if d, ok := ins.(*ssa.Defer); ok {
+					if mc, ok := d.Call.Value.(*ssa.MakeClosure); ok && mc.Fn == ssa.Value(fn) {
+						return true
+					}
+				}
+			}
+		}
+		return false
+	}
+	errIdxOf := func(c *ssa.CallCommon) int {
+		sig := c.Signature()
+		if sig == nil || sig.Results().Len() == 0 {
+			return -1
+		}
+		last := sig.Results().Len() - 1
+		if isErrType(sig.Results().At(last).Type()) {
+			return last
+		}
+		return -1
+	}
+	name := func(c *ssa.CallCommon) string {
+		if c.IsInvoke() {
+			return "(" + types.TypeString(c.Value.Type(), nil) + ")." + c.Method.Name()
+		}
+		return calleeName(c)
+	}
+	var dropped []string
+	checked, allowedN := 0, 0
+	for _, fn := range p.Funcs {
+		if !srcFunc(fn) {
+			continue
+		}
+		for _, b := range fn.Blocks {
+			for _, ins := range b.Instrs {
+				var cc *ssa.CallCommon
+				isDefer := false
+				var val *ssa.Call
+				switch x := ins.(type) {
+				case *ssa.Call:
+					cc, val = x.Common(), x
+				case *ssa.Defer:
+					cc, isDefer = x.Common(), true
+				case *ssa.Go:
+					cc, isDefer = x.Common(), true
+				}
+				if cc == nil {
+					continue
+				}
+				if _, isB := cc.Value.(*ssa.Builtin); isB {
+					continue
+				}
+				ei := errIdxOf(cc)
+				if ei < 0 {
+					continue
+				}
+				checked++
+				used := false
+				if !isDefer {
+					if cc.Signature().Results().Len() == 1 {
+						used = len(*val.Referrers()) > 0
+					} else {
+						for _, r := range *val.Referrers() {
+							if ex, ok := r.(*ssa.Extract); ok && ex.Index == ei && len(*ex.Referrers()) > 0 {
+								used = true
+							}
+						}
+					}
+				}
+				if used {
+					continue
+				}
+				nm := name(cc)
+				method := nm
+				if i := strings.LastIndex(nm, "."); i >= 0 {
+					method = nm[i+1:]
+				}
+				switch {
+				case method == "Close" && (isDefer || inDeferredClosure(fn)):
+					allowedN++
+				case method == "Write" && strings.Contains(nm, "hash."):
+					allowedN++
+				case frozen[funcLabel(fn)+"|"+nm] != "":
+					allowedN++
+				default:
+					dropped = append(dropped, fmt.Sprintf("%s: the error of %s is dropped in %s", p.at(ins), shortAtom(nm), funcLabel(fn)))
+				}
+			}
+		}
+	}
+	sort.Strings(dropped)
+	ob := Ob{Rule: "R40", Inst: "error-discipline", Props: props, Pos: "-", Nontrivial: true}
+	switch {
+	case checked < 100:
+		ob.Status, ob.Msg = Undecided, fmt.Sprintf("only %d error-returning call sites found in the module (the rule no longer sees the code)", checked)
+	case len(dropped) > 0:
+		ob.Pos = strings.SplitN(dropped[0], ": ", 2)[0]
+		ob.Status, ob.Msg, ob.Path = Violated, "an error is dropped outside the clean-up idioms: a failed write, sync, rename or read goes unnoticed and the call acknowledges what did not happen", dropped
+	default:
+		ob.Status, ob.Msg = Discharged, fmt.Sprintf("%d error-returning call sites; every error is tested, returned or passed on, except %d in the accepted idioms (Close in deferred clean-up, hash writes, one frozen site)", checked, allowedN)
+	}
+	return append(obs, ob)
+}
+
+// ---------------------------------------------------------------------------
+// R17g ROLLOVER-FROM-NONEMPTY (C01, C02): the successor of the head is named after the next offset
+// (R17e) and the head after its base offset; the two coincide exactly when the head is empty. A
+// roll-over therefore only happens where the head was established non-empty: otherwise the "new"
+// head is a second writer on the file of the old one.
+func (p *Prog) rolloverFromNonEmpty() []Ob {
+	var obs []Ob
+	r := p.R
+	pub := r.ImplMethods["Publish"]
+	ob := Ob{Rule: "R17", Inst: "g:rollover-from-nonempty", Props: []string{"C01", "C02"}, Pos: "-", Func: funcLabel(pub), Nontrivial: true}
+	if pub == nil {
+		ob.Status, ob.Msg = Undecided, "Log.Publish not found"
+		return append(obs, ob)
+	}
+	// the construction of the new head inside Publish
+	var ctor *ssa.Call
+	for _, b := range pub.Blocks {
+		for _, ins := range b.Instrs {
+			if c, ok := ins.(*ssa.Call); ok {
+				if g := c.Common().StaticCallee(); g != nil && inModule(g) && g.Signature.Results().Len() > 0 {
+					if pt, ok := g.Signature.Results().At(0).Type().(*types.Pointer); ok && namedOf(pt.Elem()) == r.HeadWriter {
+						ctor = c
+					}
+				}
+			}
+		}
+	}
+	if ctor == nil {
+		ob.Status, ob.Msg = Undecided, "Log.Publish does not construct a head writer"
+		return append(obs, ob)
+	}
+	ob.Pos = p.at(ctor)
+	// len(items) of the head index: a direct len of the field, or a method that returns it
+	var isLenOfItems func(v ssa.Value, d int) bool
+	isLenOfItems = func(v ssa.Value, d int) bool {
+		if d > 3 {
+			return false
+		}
+		c, ok := canon(v).(*ssa.Call)
+		if !ok {
+			return false
+		}
+		if isBuiltinCall(c.Common(), "len") {
+			f, _ := loadedField(canon(c.Call.Args[0]))
+			return f == r.HIItems
+		}
+		g := c.Common().StaticCallee()
+		if g == nil || !inModule(g) || g.Blocks == nil {
+			return false
+		}
+		all := true
+		n := 0
+		for _, rt := range returnsOf(g) {
+			if len(rt.Results) != 1 {
+				return false
+			}
+			n++
+			if !isLenOfItems(returnOperand(rt, 0), d+1) {
+				all = false
+			}
+		}
+		return all && n > 0
+	}
+	// nonEmptyEdge: the successor index of `iff` on which the head is known non-empty (-1: not such a test)
+	nonEmptyEdge := func(iff *ssa.If) int {
+		x, y, op, ok := relCond(iff.Cond)
+		if !ok {
+			return -1
+		}
+		if isLenOfItems(y, 0) {
+			x, y = y, x
+			switch op {
+			case token.LSS:
+				op = token.GTR
+			case token.GTR:
+				op = token.LSS
+			case token.LEQ:
+				op = token.GEQ
+			case token.GEQ:
+				op = token.LEQ
+			}
+		}
+		if !isLenOfItems(x, 0) {
+			return -1
+		}
+		k, isK := constInt(y)
+		if !isK {
+			return -1
+		}
+		switch {
+		case op == token.GTR && k == 0, op == token.NEQ && k == 0, op == token.GEQ && k == 1:
+			return 0
+		case op == token.EQL && k == 0, op == token.LEQ && k == 0, op == token.LSS && k == 1:
+			return 1
+		}
+		return -1
+	}
+	established := func(fn *ssa.Function, b *ssa.BasicBlock) bool {
+		for _, hb := range fn.Blocks {
+			if iff, ok := terminator(hb).(*ssa.If); ok {
+				if e := nonEmptyEdge(iff); e >= 0 && edgeDominates(hb, e, b) {
+					return true
+				}
+			}
+		}
+		return false
+	}
+	// a predicate method returns true only where non-emptiness was established
+	var trueImplies func(g *ssa.Function) bool
+	trueImplies = func(g *ssa.Function) bool {
+		var okVal func(v ssa.Value, at *ssa.BasicBlock, d int) bool
+		okVal = func(v ssa.Value, at *ssa.BasicBlock, d int) bool {
+			if d > 6 {
+				return false
+			}
+			if k, ok := v.(*ssa.Const); ok && k.Value != nil && k.Value.String() == "false" {
+				return true
+			}
+			if established(g, at) {
+				return true
+			}
+			if phi, ok := v.(*ssa.Phi); ok {
+				for i, e := range phi.Edges {
+					if !okVal(e, phi.Block().Preds[i], d+1) {
+						return false
+					}
+				}
+				return true
+			}
+			return false
+		}
+		n := 0
+		for _, rt := range returnsOf(g) {
+			if len(rt.Results) != 1 {
+				return false
+			}
+			n++
+			if !okVal(rt.Results[0], rt.Block(), 0) {
+				return false
+			}
+		}
+		return n > 0
+	}
+	okR := established(pub, ctor.Block())
+	if !okR {
+		// a dominating branch on a predicate of the head writer that implies non-emptiness
+		for d := ctor.Block(); d != nil && !okR; d = d.Idom() {
+			id := d.Idom()
+			if id == nil {
+				break
+			}
+			iff, ok := terminator(id).(*ssa.If)
+			if !ok || !edgeDominates(id, 0, ctor.Block()) {
+				continue
+			}
+			if c, ok := iff.Cond.(*ssa.Call); ok {
+				if g := c.Common().StaticCallee(); g != nil && inModule(g) && g.Blocks != nil && trueImplies(g) {
+					okR = true
+					ob.Guards = append(ob.Guards, p.at(iff))
+				}
+			}
+		}
+	}
+	if okR {
+		ob.Status, ob.Msg = Discharged, "the roll-over in Publish happens only where the head was established to hold at least one message"
+	} else {
+		ob.Status, ob.Msg = Violated, "the head can be rolled over while it is empty: its successor is named after the same offset, so a second writer is opened on the same file and the log's reader list holds that segment twice (reachable with a Rollover option below the file header size)"
+	}
+	return append(obs, ob)
+}
+
+// ---------------------------------------------------------------------------
+// R18c STALE-READER (C08, C03): a segment reader found in the reader list in one critical section is
+// only a hint in the next: the head's reader object is replaced when the head rolls over. A method
+// of the log that changes a segment's files through a reader object takes that object from the list
+// (or the writer field) under the lock it holds now, never one carried over from an earlier look-up.
+func (p *Prog) staleReader() []Ob {
+	var obs []Ob
+	r := p.R
+	ls := p.LocksetCached()
+	destructive := func(g *ssa.Function) bool {
+		if g == nil || !inModule(g) || g.Blocks == nil {
+			return false
+		}
+		return p.reaches(g, func(h *ssa.Function) bool {
+			for _, o := range p.fsOps(h) {
+				if (o.op == "REMOVE" && o.a.kind == "seg") || (o.op == "RENAME" && o.b.kind == "seg") {
+					return true
+				}
+			}
+			return false
+		})
+	}
+	var fresh func(v ssa.Value, d int) (bool, string)
+	seenPhi := map[*ssa.Phi]bool{}
+	fresh = func(v ssa.Value, d int) (bool, string) {
+		if d > 12 {
+			return false, "value too deep"
+		}
+		if isNilConst(v) {
+			return true, ""
+		}
+		switch x := v.(type) {
+		case *ssa.Phi:
+			if seenPhi[x] {
+				return true, "" // a cycle through the loop: judged by the other edges
+			}
+			seenPhi[x] = true
+			for _, e := range x.Edges {
+				if ok, why := fresh(e, d+1); !ok {
+					return false, why
+				}
+			}
+			return true, ""
+		case *ssa.UnOp:
+			if x.Op == token.MUL {
+				switch a := x.X.(type) {
+				case *ssa.IndexAddr:
+					if f, _ := loadedField(canon(a.X)); f == r.ImplReaders {
+						return true, ""
+					}
+				case *ssa.FieldAddr:
+					if fieldVarOfAddr(a) == r.ImplWriter {
+						return true, ""
+					}
+				case *ssa.Alloc:
+					for _, st := range allocStores(a) {
+						if ok, why := fresh(st.Val, d+1); !ok {
+							return false, why
+						}
+					}
+					return true, ""
+				}
+			}
+		case *ssa.Extract:
+			if c, ok := x.Tuple.(*ssa.Call); ok {
+				return false, "the object was returned by " + calleeName(c.Common()) + " in an earlier critical section"
+			}
+		case *ssa.Parameter:
+			return false, "the object is a parameter (found by the caller)"
+		}
+		return false, "the object is " + v.String()
+	}
+	n := 0
+	for _, fn := range p.Funcs {
+		if !srcFunc(fn) || recvNamed(fn) != r.Impl {
+			continue
+		}
+		k := 0
+		for _, b := range fn.Blocks {
+			for _, ins := range b.Instrs {
+				c, ok := ins.(*ssa.Call)
+				if !ok {
+					continue
+				}
+				g := c.Common().StaticCallee()
+				if g == nil || recvNamed(g) != r.SegReader || !destructive(g) || len(c.Call.Args) == 0 {
+					continue
+				}
+				n++
+				k++
+				ob := Ob{Rule: "R18", Inst: fmt.Sprintf("c:stale-reader:%s#%d", funcLabel(fn), k), Props: []string{"C08", "C03"}, Pos: p.at(c), Func: funcLabel(fn), Nontrivial: true}
+				var bad []string
+				if ls.at[c][r.ReadersMu] != modeW {
+					bad = append(bad, "the call does not run with the reader-list lock held exclusively")
+				}
+				if ok, why := fresh(c.Call.Args[0], 0); !ok {
+					bad = append(bad, why)
+				}
+				if len(bad) > 0 {
+					ob.Status, ob.Msg, ob.Path = Violated, shortCallee(g)+" is invoked on a reader object that may no longer be the one in the reader list (the head rolled over in between): the stale object, still flagged as the head, is put back into the list and cursors stop at it", bad
+				} else {
+					ob.Status, ob.Msg = Discharged, "the reader object is taken from the reader list under the exclusive lock held at the call"
+				}
+				obs = append(obs, ob)
+			}
+		}
+	}
+	if n == 0 {
+		obs = append(obs, Ob{Rule: "R18", Inst: "c:stale-reader", Props: []string{"C08", "C03"}, Pos: "-", Status: Undecided, Msg: "no method of the log changes a segment's files through a reader object"})
 	}
 	return obs
 }
